@@ -16,6 +16,7 @@ Two independent judgements:
       implementation alone.
 """
 import os
+import re
 import struct
 
 STREAMS = ['decl-matrix', 'collision-inheritance', 'random-histories']
@@ -574,6 +575,8 @@ class Oracle:
                 ent['attrs'].add(a)
         # per (obj, iface, pname): None = never assigned; ('v', tagged, judge) ; ('?',) unknown
         self.val = {}
+        self.wseq = {}
+        self.seq = 0
         self.exported = set()
 
     def flag(self, key, what, idx, observed, expected):
@@ -581,12 +584,19 @@ class Oracle:
 
     # ---- helpers
     def collide_partner(self, o, i, p, got=None):
-        """another declared property whose interface+name concatenation equals i+p (the statement keeps
-        (interface, property) pairs apart; a failure on such a pair is reported under the collision key)"""
+        """another declared property whose interface+name concatenation equals i+p and which was written on the
+        same instance after the last write to (i, p): a failure on (i, p) is then reported under the collision
+        key (the statement keeps (interface, property) pairs apart)"""
+        mine = self.wseq.get((o, i, p), -1)
         for (i2, p2) in sorted(self.props):
-            if (i2, p2) != (i, p) and i2 + p2 == i + p:
+            if (i2, p2) != (i, p) and i2 + p2 == i + p and self.wseq.get((o, i2, p2), -1) > mine:
                 return (i2, p2)
         return None
+
+    def wrote(self, o, i, p, state):
+        self.seq += 1
+        self.wseq[(o, i, p)] = self.seq
+        self.val[(o, i, p)] = state
 
     def check_variant(self, idx, o, i, p, ent, st, var, ctxname):
         """var = ['V', sig, tagged] returned for a readable property whose last write is st"""
@@ -651,9 +661,9 @@ class Oracle:
             ent = self.props[ip]
             v = op[3]
             if not has_type(ent['sig'], v):
-                self.val[(o, i, p)] = ('?',)       # DESIGN C17 (iii): outside the claim
+                self.wrote(o, i, p, ('?',))        # DESIGN C17 (iii): outside the claim
                 return
-            self.val[(o, i, p)] = ('v', v, 'local')
+            self.wrote(o, i, p, ('v', v, 'local'))
             if o in self.exported:
                 if raised:
                     self.flag('assign-raises', 'assigning a value of the declared type raises', idx, 'raised', 'stored')
@@ -676,7 +686,7 @@ class Oracle:
             if iface == '':
                 # any interface: not judged; some property called p may have changed
                 for (o2, i2, p2) in [(o, k[0], k[1]) for k in self.props if k[1] == p]:
-                    self.val[(o2, i2, p2)] = ('?',)
+                    self.wrote(o2, i2, p2, ('?',))
                 return
             ent = self.props.get((iface, p))
             if ent is None:
@@ -689,12 +699,12 @@ class Oracle:
                 if ok:
                     self.flag('set-readonly-succeeds', 'Set of a property that is not writeable answers success',
                               idx, 'return', 'error')
-                    self.val[(o, iface, p)] = ('?',)
+                    self.wrote(o, iface, p, ('?',))
                 self.expect_signals(idx, o, obs, None)
                 return
             typed = has_type(ent['sig'], v)
             if ok:
-                self.val[(o, iface, p)] = ('v', v, 'remote' if typed else 'remote-wrongtype')
+                self.wrote(o, iface, p, ('v', v, 'remote' if typed else 'remote-wrongtype'))
                 if typed:
                     self.expect_signals(idx, o, obs, (iface, p, v) if ent['e'] == 't' else None)
             else:
@@ -1106,6 +1116,32 @@ def report(ctx, stream, case, res, seen_keys):
     for k, n in res['stats'].items():
         ctx.stat(k, n)
     ctx.stat('classes=%d' % len(case['classes']))
+    ctx.stat('instances=%d' % case['nobj'])
+    decl = {}
+    for ci, c in enumerate(case['classes']):
+        for a, p, i in c['descs']:
+            i2, q = resolve(case['classes'], i, p)
+            if q is not None:
+                decl.setdefault((i2, p), []).append(ci)
+                ctx.stat('declared sig=%s' % q[1])
+                ctx.stat('declared access=%s%s' % ('r' if q[2] else '-', 'w' if q[3] else '-'))
+                ctx.stat('declared emits=%s' % q[4])
+            if i is None:
+                ctx.stat('descriptor without interface name')
+    if any(k1 != k2 and k1[0] + k1[1] == k2[0] + k2[1] for k1 in decl for k2 in decl):
+        ctx.stat('case declares a colliding pair')
+    lv = {}
+    for (i, p), cs in decl.items():
+        lv.setdefault(i, set()).update(cs)
+    if any(len(v) > 1 for v in lv.values()):
+        ctx.stat('case declares one interface at several class levels')
+    if any(len(cs) > 1 for cs in decl.values()):
+        ctx.stat('case declares one property twice (override / second attribute)')
+    names = {}
+    for (i, p) in decl:
+        names.setdefault(p, set()).add(i)
+    if any(len(v) > 1 for v in names.values()):
+        ctx.stat('case declares one property name on several interfaces')
     ctx.stat('judged' if res['judged'] else 'not-judged(ambiguous declaration)')
     if res['first_diff'] is not None:
         k = res['first_diff']
@@ -1123,6 +1159,13 @@ def report(ctx, stream, case, res, seen_keys):
                     break
         ctx.violation(key, what, inp=c, observed={'op_index': idx, 'observed': observed},
                       expected=expected)
+
+
+_ERR_RE = re.compile(r'err [A-Za-z0-9:?]+')
+
+
+def coarse(line):
+    return _ERR_RE.sub('err', line)
 
 
 def run_batch(ctx, stream, cases, seen_keys):
@@ -1145,7 +1188,8 @@ def run_batch(ctx, stream, cases, seen_keys):
             # the implementation may have stopped at a declaration error: compare the common prefix it defines
             m = ml[:len(res['impl'])]
             for k in range(len(res['impl'])):
-                if k >= len(m) or m[k] != res['impl'][k]:
+                # which error is reported (and its text) is not part of the property: compare "an error reply"
+                if k >= len(m) or coarse(m[k]) != coarse(res['impl'][k]):
                     res['first_diff'] = k
                     res['model_line'] = m[k] if k < len(m) else None
                     break
